@@ -227,12 +227,20 @@ class _Inliner:
 
                         class R(ast.NodeTransformer):
                             def visit_Call(self_, c):
-                                if c is n:
+                                if getattr(c, '_xrsa_hoist', False):
                                     return ast.copy_location(ast.Name(id=nm, ctx=ast.Load()), c)
                                 self_.generic_visit(c)
                                 return c
+                        # the program's own tree is never edited: the replacement is made in a copy (the call to hoist
+                        # is found again in the copy by a mark)
+                        n._xrsa_hoist = True
+                        try:
+                            valcopy = copy.deepcopy(s.value)
+                        finally:
+                            del n._xrsa_hoist
                         s2 = copy.copy(s)
-                        s2.value = R().visit(s.value)
+                        s2.value = R().visit(valcopy)
+                        pre.value = copy.deepcopy(n)
                         return self.stmt(pre, stack, depth) + self.stmt(s2, stack, depth)
         if call is not None and depth > 0:
             h = _inlinable(self.prog, self.f, call, stack, self.keep)
